@@ -124,7 +124,9 @@ DDel(ps, ks) == SelectSeq(ps, LAMBDA p : ~Member(p[1], ks))
 MkDict(ps) == <<"d", DSetMany(<<>>, ps)>>
 \* scalars hash; whether a sequence hashes depends on whether the producing function built a tuple or a Python list,
 \* which this model does not track: operations that must hash a collection are not judged (UnH)
-Hashable(v) == v[1] \in {"n", "b", "i", "s"}
+\* scalars, and dicts of scalars (a frozen dict hashes by its set of pairs: equal dicts hash alike whatever their key order)
+Hashable(v) == \/ v[1] \in {"n", "b", "i", "s"}
+               \/ (v[1] = "d" /\ \A i \in 1..Len(v[2]) : v[2][i][2][1] \in {"n", "b", "i", "s"})
 UnH == <<"e", "unmodelled">>
 
 (* ---- arithmetic -------------------------------------------------------------- *)
